@@ -27,7 +27,8 @@ from urllib.request import OpenerDirector
 from xml.etree import ElementTree
 from xml.etree.ElementTree import Element
 
-from elementpath import XPathToken, SchemaElementNode, build_schema_node_tree
+from elementpath import XPathToken, SchemaElementNode, ElementPathError, \
+    build_schema_node_tree
 
 import xmlschema.names as nm
 from xmlschema.aliases import XMLSourceType, NsmapType, LocationsType, UriMapperType, \
@@ -1347,8 +1348,11 @@ class XMLSchemaBase(XsdValidator, ElementPathMixin[Union[SchemaType, XsdElement]
                             break
 
                     path_ = f"{'/'.join(e.tag for e in ancestors)}/ancestor-or-self::node()"
-                    xsd_ancestors = cast(list[XsdElement],
-                                         schema.findall(path_, namespaces)[1:])
+                    try:
+                        xsd_ancestors = cast(list[XsdElement],
+                                             schema.findall(path_, namespaces)[1:])
+                    except ElementPathError:
+                        xsd_ancestors = []  # names of the XML data not usable in a path
 
                     # Clear identity constraints counters
                     for k, e in enumerate(xsd_ancestors[k:], start=k):
